@@ -9,6 +9,7 @@
 #include <pika/execution.hpp>
 #include <pika/runtime/thread_pool_helpers.hpp>
 #include <sched.h>
+#include <hwloc.h>
 #include <atomic>
 #include <pika/execution_base/any_sender.hpp>
 #include <bit>
@@ -25,6 +26,22 @@ static void sweep(const char* synthetic, int npus, bool all_masks)
     int hc = (int) pt::hardware_concurrency();
     seqx::begin_case("topology %s: %d PUs seen by pika", synthetic, hc);
     SEQX_CHECK(hc == npus, "harness-topology", "pika sees %d PUs for HWLOC_SYNTHETIC=%s (expected %d)", hc, synthetic, npus);
+    // OS index of every logical PU, read from hwloc directly (the oracle's own conversion): a process
+    // mask is given in OS numbers, pika's worker masks are in logical numbers
+    int os_of[64];
+    bool permuted = false;
+    {
+        int const pu_depth = hwloc_get_type_or_below_depth(topo.topo, HWLOC_OBJ_PU);
+        for (int l = 0; l < npus; ++l)
+        {
+            hwloc_obj_t o = hwloc_get_obj_by_depth(topo.topo, pu_depth, l);
+            SEQX_CHECK(o && (int) o->logical_index == l && (int) o->os_index < npus, "harness-topology", "unexpected PU object for logical index %d", l);
+            os_of[l] = (int) o->os_index;
+            if (os_of[l] != l) permuted = true;
+        }
+    }
+    seqx::begin_case("topology %s: OS numbering %s", synthetic, permuted ? "differs from the logical numbering" : "equals the logical numbering");
+    SEQX_CHECK(permuted == (strstr(synthetic, "indexes=") != nullptr), "harness-topology", "OS numbering of %s is not what the topology string asks for", synthetic);
     static const char* modes[] = {"compact", "scatter", "balanced", "numa-balanced"};
     unsigned long full = (1ul << npus) - 1;
     std::vector<unsigned long> masks;
@@ -38,17 +55,20 @@ static void sweep(const char* synthetic, int npus, bool all_masks)
         masks.push_back(0x3333333333333333ul & full);
         masks.push_back(full);
     }
-    for (unsigned long m : masks)
+    for (unsigned long m : masks)    // m: process mask in OS numbers, as --pika:process-mask takes it
     {
         pt::mask_type pm{};
         pt::resize(pm, npus);
         for (int b = 0; b < npus; ++b) if (m >> b & 1) pt::set(pm, b);
         topo.set_cpubind_mask_main_thread(pm);
         int avail = std::popcount(m);
+        unsigned long m_os = m;
+        m = 0;    // from here on m = the logical PUs whose OS number is in the requested mask
+        for (int l = 0; l < npus; ++l) if (m_os >> os_of[l] & 1) m |= 1ul << l;
         for (int mi = 0; mi < 4; ++mi)
             for (int nt = 1; nt <= avail + 1; ++nt)
             {
-                seqx::begin_case("topology %s mask=0x%lx bind=%s threads=%d", synthetic, m, modes[mi], nt);
+                seqx::begin_case("topology %s process-mask(OS numbers)=0x%lx (logical PUs 0x%lx) bind=%s threads=%d", synthetic, m_os, m, modes[mi], nt);
                 ++seqx::g->transitions;
                 pika::detail::affinity_data ad;
                 bool threw = false;
@@ -68,7 +88,7 @@ static void sweep(const char* synthetic, int npus, bool all_masks)
                     unsigned long bits = 0;
                     for (int b = 0; b < npus; ++b) if (pt::test(wm, b)) bits |= 1ul << b;
                     SEQX_CHECK(std::popcount(bits) == 1, "not-one-pu", "worker %d is bound to %d PUs (mask 0x%lx)", w, std::popcount(bits), bits);
-                    SEQX_CHECK((bits & ~m) == 0, "outside-process-mask", "worker %d is bound to PU mask 0x%lx outside the process mask 0x%lx", w, bits, m);
+                    SEQX_CHECK((bits & ~m) == 0, "outside-process-mask", "worker %d is bound to logical PU mask 0x%lx (OS cpu %d), outside the process mask: OS cpus 0x%lx = logical PUs 0x%lx", w, bits, os_of[std::countr_zero(bits)], m_os, m);
                     SEQX_CHECK((bits & used) == 0, "shared-pu", "worker %d shares its PU (mask 0x%lx) with an earlier worker", w, bits);
                     used |= bits;
                     unsigned long reported = ad.get_pu_num(w);
@@ -183,6 +203,7 @@ int main(int argc, char** argv)
         {"synthetic_2x2x2", [](bool) { sweep("pack:2 core:2 pu:2", 8, true); }, "pack:2 core:2 pu:2, all 255 masks"},
         {"synthetic_1x4x2", [](bool) { sweep("pack:1 core:4 pu:2", 8, true); }, "pack:1 core:4 pu:2, all masks"},
         {"synthetic_2x4x1", [](bool) { sweep("pack:2 core:4 pu:1", 8, true); }, "pack:2 core:4 pu:1, all masks"},
+        {"synthetic_1x4x2_osnum", [](bool) { sweep("pack:1 core:4 pu:2(indexes=0,4,1,5,2,6,3,7)", 8, true); }, "pack:1 core:4 pu:2 with the OS numbering of a hyper-threaded machine (0,4,1,5,2,6,3,7): process masks are OS numbers, worker masks logical"},
         {"synthetic_2x4x2", [](bool t) { sweep("pack:2 core:4 pu:2", 16, t); }, "pack:2 core:4 pu:2 (16 PUs): structured mask family (thorough: all 65535 masks)"},
         {"live_grid", live, "real machine: thread counts x 4 binding modes x 1-2 pools, OS affinity read from each worker"},
     };
